@@ -11,6 +11,7 @@ MCReplies == {R("ok30", FALSE, 30, -1, {"a", "b"}),        \* interval 30 s, two
               R("fail", TRUE, 0, -1, {}),                  \* HTTP 500 / UDP error
               R("malformed", TRUE, 0, -1, {}),             \* not bencoding / truncated datagram
               R("reason3", TRUE, 0, 180, {}),              \* failure reason, retry in 3 minutes
+              R("reason30", TRUE, 0, 1800, {}),            \* failure reason, retry in 30 minutes
               R("never", TRUE, 0, 8640000, {})}            \* failure reason, retry in: never
 MCElapsed == {299, 301, 899, 901, 1799, 1801, 3599, 3601, 8639999, 8640001}
 
